@@ -840,12 +840,8 @@ func (g *Generator) getMethodPath(method *protogen.Method, basePath string, pack
 		return annotations.BuildHTTPPath(basePath, customPath)
 	}
 
-	// Generate default path
-	if basePath != "" {
-		return fmt.Sprintf("%s/%s", strings.TrimSuffix(basePath, "/"), camelToSnake(method.GoName))
-	}
-
-	return fmt.Sprintf("/%s/%s", packageName, camelToSnake(method.GoName))
+	// Generate default path (the same rule every other generator applies)
+	return annotations.DefaultMethodPath(string(packageName), basePath, method.GoName)
 }
 
 // getCustomPath extracts custom HTTP path from method options.
@@ -882,18 +878,7 @@ func (g *Generator) getPathParams(method *protogen.Method) []string {
 }
 
 func camelToSnake(s string) string {
-	var result []byte
-	for i, r := range s {
-		if r >= 'A' && r <= 'Z' {
-			if i > 0 {
-				result = append(result, '_')
-			}
-			result = append(result, byte(r+'a'-'A'))
-		} else {
-			result = append(result, byte(r))
-		}
-	}
-	return string(result)
+	return annotations.CamelToSnake(s)
 }
 
 // generateErrorResponseFunctions generates error response helper functions.
